@@ -689,7 +689,7 @@ fn read_code<C: CodeVisitor>(
 		match attribute_name.as_java_str() {
 			name if name == attribute::STACK_MAP_TABLE && !interests.stack_map_table => reader.skip(length as i64)?,
 			name if name == attribute::STACK_MAP_TABLE => {
-				let mut offset = 0;
+				let mut offset: u16 = 0;
 				let number_of_entries = reader.read_u16_as_usize()?;
 				let mut frames = std::collections::VecDeque::with_capacity(number_of_entries);
 				for i in 0..number_of_entries {
@@ -734,7 +734,9 @@ fn read_code<C: CodeVisitor>(
 
 					let (offset_delta, frame_data) = read_stack_map_frame(reader, pool, &mut labels)?;
 
-					offset += offset_delta + (if i == 0 { 0 } else { 1 });
+					offset = offset.checked_add(offset_delta)
+						.and_then(|offset| offset.checked_add(if i == 0 { 0 } else { 1 }))
+						.context("bytecode offset of stack map frame exceeds u16::MAX")?;
 
 					let label = labels.get_or_create(offset)?;
 
